@@ -73,17 +73,22 @@ def jobs_for(tier, rnd):
     # an instance is everything its members consumed, wherever the omitted and the optional ones stand (first, last, alone)
     import itertools
     MEMBERS = {'F': 'f{i}: D', 'O': 'o{i}: Opt(";")', 'P': 'pass ";"', 'PO': 'pass Opt(";")', 'PS': 'pass "~"*', 'LO': 'let l{i}: Opt("~")',
-               'LF': 'let l{i}: D'}
+               'LF': 'let l{i}: D',
+               # an instance of another class as a field, and one that is only LOOKED AT: it is kept, its span lies beyond the
+               # end of the instance that holds it, and that instance's span is still its own match
+               'FC': 'c{i}: Dg', 'EC': 'e{i}: Expect(Dg)', 'EO': 'e{i}: Opt(Expect([";", Dg]))'}
     layouts = [l for n in (1, 2, 3) for l in itertools.product(MEMBERS, repeat=n)]
     if tier == 'quick':
-        layouts = [l for l in layouts if len(l) < 3] + rnd.sample([l for l in layouts if len(l) == 3], 90)
+        layouts = [l for l in layouts if len(l) < 3] + rnd.sample([l for l in layouts if len(l) == 3], 110)
     TLY = G.texts('1;~', 4, extra=('1;;1', '1;~~1;', '1~~;1', ';1;;1;', '1;1;1;', '~~1~~1'))
     TLI = ['1 ;', '1 ; 1 ;', ' 1;~ ~1', '1 ~ ~ ; 1', '1;\n1;', ' ; 1 ; ', '1 ;1', '1\n~\n1~']
     for lay in layouts:
         body = '; '.join(MEMBERS[k].format(i=i) for i, k in enumerate(lay))
         for ign in (False, True):
-            d = 'start = [C, Opt(C), /[1;~ \\n]*/]\nclass C { ' + body + ' }\nD = /\\d/\n' + ('ignore /[ \\n]+/\n' if ign else '')
-            jobs.append((gid, d, (TLY[:80] + TLI) if ign else TLY, {'positions': [0, 1], 'fulls': [True], 'kind': 'plain', 'module_level': True, 'stratum': 'class-layouts'}))
+            d = 'start = [C, Opt(C), /[1;~ \\n]*/]\nclass C { ' + body + ' }\nD = /\\d/\nclass Dg { v: /\\d/ }\n' + ('ignore /[ \\n]+/\n' if ign else '')
+            looks = any(k in ('EC', 'EO') for k in lay)
+            jobs.append((gid, d, (TLY[:80] + TLI) if ign else TLY, {'positions': [0, 1], 'fulls': [True], 'kind': 'look' if looks else 'plain', 'module_level': True,
+                                                                    'stratum': 'class-layouts'}))
             gid += 1
     # classes with arbitrary bodies: 1-3 members, each any expression of the core language (depth <= 2), kept, omitted or
     # a let member at random; a class may hold another; instances under repetition and option
